@@ -123,7 +123,11 @@ class Block(Node):
                             scope.add_block(block)
             scope.real.pop()
             scope.pop()
-            if self.inner or self.parsed:
+            # (variable definitions alone are nothing to keep the block for:
+            # inside @media it would be printed as an empty `@media ... {}`)
+            if self.inner or any(
+                    str(type(p)) != "<class 'lesscpy.plib.variable.Variable'>"
+                    for p in self.parsed):
                 return [self] + sibling_media_queries
             else:
                 return sibling_media_queries
